@@ -2385,7 +2385,7 @@ def c20(tier):
                       assumptions=["OS schedules are sampled, call-granularity interleavings are exhaustive for the short scripts"])
 
 
-def summarise_writer_run(seg, sc, k):
+def summarise_writer_run(seg, sc, k, src_fault=False):
     """one fault run of a writer program -> FRun event (outcome = entries, metadata, contents, comment; no offsets)"""
     panic = any(e.get("r") == "panic" or e.get("rc") == "panic" or e.get("rraw") == "panic" for e in seg)
     ops = 0
@@ -2419,7 +2419,10 @@ def summarise_writer_run(seg, sc, k):
     n0 = 0
     if calls and calls[last_start].get("ev") == "NewAppend" and isinstance(calls[last_start].get("L"), dict):
         n0 = len(calls[last_start]["L"].get("cd") or [])
-    nsafe = n0 + max(0, len(made) - 1)
+    # (a fault of the SOURCE archive of a raw copy leaves the sink untouched: the entry before the copy was closed without incident)
+    # (... unless the source failed before the writer was even called: "src: ..." is the harness's own message - the entry is still open)
+    reached = first_bad < len(calls) and not str(calls[first_bad].get("msg", "")).startswith("src:")
+    nsafe = n0 + (len(made) if (src_fault and reached) else max(0, len(made) - 1))
     if last_open is not None and seg[last_open].get("r") == "ok":
         # only if it follows the last Finish/Drop call of the run
         last_fin = max([i for i, e in enumerate(seg) if e.get("ev") in ("Finish", "Drop")], default=-1)
@@ -2542,7 +2545,7 @@ def c11(tier):
     by_name = {}
     base_ents = {hdr[0]["sc"]: hdr[1].get("_ents", []) for hdr in fruns}
     for s in faults:
-        fr = summarise_writer_run(segs.get(s["sc"], []), s["_name"], s["_k"])
+        fr = summarise_writer_run(segs.get(s["sc"], []), s["_name"], s["_k"], src_fault=s["_k"] >= 100000)
         # an archive that finish() reports as written still holds, unchanged, every entry that was closed before the failing call
         if fr["finished"]:
             n_ = fr["_nsafe"]
